@@ -175,14 +175,15 @@ def history_array_rules(prog, ctx, rule):
                  "no free(%s[%s]) in the loop over the scandir result" % (de, ivar), key="dirent-leak")
     else:
         fb = cfg.block_of(same_iter_free[0])
+        fbs = [cfg.block_of(c9) for c9 in same_iter_free]        # any of the free(de[i]) statements will do
         back = [(b, i) for (b, i, s) in cfg.back_edges() if s == hb]
         incb = [b for b in cfg.blocks.values() if inc is not None and any(e is inc or e.within(inc) for e in b.elems)]
         target = incb[0].id if incb else hb
         # all paths from the loop body entry to the increment pass the free block
         body_entry = cfg.loop_body_entry(main)
-        reach = cfg.reachable(body_entry, avoid_blocks=[fb, hb])
+        reach = cfg.reachable(body_entry, avoid_blocks=fbs + [hb])
         if target in reach:
-            wp = cfg.witness_path(target, start=body_entry, avoid_blocks=[fb, hb])
+            wp = cfg.witness_path(target, start=body_entry, avoid_blocks=fbs + [hb])
             ctx.fail(rule, "check_conf_dir releases every directory entry", same_iter_free[0].where,
                      "an iteration can reach the next one without free(%s[%s]): that entry leaks" % (de, ivar), key="dirent-leak",
                      path=cfg.describe_path(wp))
